@@ -10,8 +10,11 @@ from vlib import *
 
 OVERLAY = {"p2p/net/upgrader/zz_c04_verif_test.go": "harness/overlay/c04/c04_verif_test.go",
            "zz_c04_streams_verif_test.go": "harness/overlay/c04/c04_streams_verif_test.go",
-           "p2p/net/swarm/zz_c04_close_verif_test.go": "harness/overlay/swarm/c04_close_verif_test.go"}
-SUITES = [("p2p/net/upgrader", "TestVerifC04$"), (".", "TestVerifC04Streams$"), ("p2p/net/swarm", "TestVerifC04Close$")]
+           "p2p/net/swarm/zz_c04_close_verif_test.go": "harness/overlay/swarm/c04_close_verif_test.go",
+           "p2p/transport/tcpreuse/zz_c04_verif_test.go": "harness/overlay/c04/c04_tcpreuse_verif_test.go",
+           "p2p/transport/quic/zz_c04_verif_test.go": "harness/overlay/c04/c04_quic_verif_test.go"}
+SUITES = [("p2p/net/upgrader", "TestVerifC04$"), (".", "TestVerifC04Streams$"), ("p2p/net/swarm", "TestVerifC04Close$"),
+          ("p2p/transport/tcpreuse", "TestVerifC04Tcpreuse$"), ("p2p/transport/quic", "TestVerifC04Quic$")]
 
 SPECS = [
     "upgrade_inner=p2p/net/upgrader/upgrader.go:upgrader.upgrade",
@@ -119,7 +122,9 @@ def warm(ctx):
 
 
 KIND = {1: "outbound dial (TcpTransport.Dial > Upgrade)", 2: "inbound accept (upgrader listener)",
-        3: "stream open (BasicHost.NewStream; cfg 0 = opener, 1 = remote host)", 4: "host Close (usage after close, listeners/conns gone)"}
+        3: "stream open (BasicHost.NewStream; cfg 0 = opener, 1 = remote host)", 4: "host Close (usage after close, listeners/conns gone)",
+        6: "raw TCP client against the shared tcpreuse listener (only multistream registered)",
+        7: "QUIC dial/accept (cfg 0 = dialing side, 1 = listening side)"}
 FAULT = {0: "none", 1: "read error", 2: "write error", 3: "EOF", 4: "socket dies", 5: "stall until deadline",
          10: "none (protocol served)", 11: "no handler for the protocol", 12: "local rcmgr refuses the protocol scope", 13: "remote rcmgr refuses the protocol scope",
          14: "remote handler resets", 15: "context cancelled (served protocol)", 16: "context cancelled (unserved protocol)",
@@ -150,9 +155,24 @@ def describe_close(t):
         return {"raw": t}
 
 
+TCPREUSE = {0: "client speaks HTTP (no listener for that type)", 1: "client sends a TLS ClientHello prefix (no listener for that type)",
+            2: "client sends unknown bytes", 3: "client closes before any byte", 4: "client sends one byte and closes",
+            5: "client sends one byte and stalls (identify timeout)", 6: "client sends nothing (identify timeout)", 7: "client speaks multistream (accepted, closed by the harness)",
+            99: "summary after all attempts (usage must be zero)"}
+QUICSC = {0: "none (connection established, closed by the harness)", 1: "server gater rejects at InterceptAccept", 2: "server gater rejects at InterceptSecured",
+          3: "client gater rejects at InterceptSecured", 4: "server resource manager refuses the inbound connection", 5: "dial for the wrong peer ID"}
+
+
 def describe(t):
     if t and t[0] == 5:
         return describe_close(t)
+    if len(t) == 12 and t[0] == 6:
+        return {"attempt": KIND[6], "scenario": TCPREUSE.get(t[1], t[1]), "reported_error": t[4], "raw_conn_closed": t[5],
+                "usage_delta(conns,fd,mem,streams)": t[7:11], "goroutines_left": t[11], "config": "", "special": "", "fault": TCPREUSE.get(t[1], t[1]), "at_io_index": 0}
+    if len(t) == 12 and t[0] == 7:
+        return {"attempt": KIND[7] + (" dialing side" if t[1] == 0 else " listening side"), "scenario": QUICSC.get(t[2] % 100, t[2]), "reported_error": t[4],
+                "raw_conn_closed": t[5], "usage_delta(conns,fd,mem,streams)": t[7:11], "goroutines_left": t[11], "config": "", "special": "",
+                "fault": QUICSC.get(t[2] % 100, t[2]), "at_io_index": 0}
     if len(t) != 12:
         return {"raw": t}
     fk = t[2]
@@ -211,7 +231,10 @@ if __name__ == "__main__":
              "Close race (kind 5): a real Swarm with the real resource manager is given 1-5 fake upgraded connections through Swarm.addConn from concurrent "
              "goroutines, 0-3 Conn.NewStream each, random Conn.Close / Stream.Reset, while Swarm.Close runs at a seeded random point (seeded yields/sleeps); "
              "after everything returned: what each addConn/addStream answered, whether every fake conn / muxed stream was closed, Swarm.Conns(), system usage. "
-             "The model (Close.v) is run on the schedule these answers determine and must end in the same per-item statuses.",
+             "The model (Close.v) is run on the schedule these answers determine and must end in the same per-item statuses. "
+             "tcpreuse (kind 6): raw TCP clients against the real shared listener + gated listener + resource manager with only multistream registered (HTTP / TLS / unknown "
+             "first bytes, close before 3 bytes, stall until the identify timeout, multistream). QUIC (kind 7): real transports over loopback with real resource managers, "
+             "a gater rejecting at InterceptAccept / InterceptSecured on either side, the server's resource manager refusing, a dial for the wrong peer.",
         describe=describe, key=key, what=what, crosscheck=60, search_seeds=[],
     )
     # if the balance theorem breaks, put the model's list of unbalanced paths into the notes
